@@ -1,4 +1,5 @@
 import SafeNet.Proofs.Replication
+import SafeNet.Proofs.ReplicationRounds
 import SafeNet.Props.C11
 /-!
 # C09 — records replicate to in-range neighbours and replicas converge
@@ -12,6 +13,9 @@ throttle}` joined by a wire; the fetcher is the C08 model, `store_replicated_in_
   `AllHeard` preserved by every transition, induction over arbitrary operation lists).
 * `advertises_everything` — the periodic list is exactly the index (`…_sys`: what goes on the wire).
 * `immutable_replicates` — advertisement → fetch → reply → store, the copy equals the holder's.
+* `mutable_converge_txs` / `mutable_converge_reg` — `n` nodes, whole (multi-key) advertisements, any order of exchanges,
+  FETCH_TIMEOUT in the round structure: one fair round leaves every node with the join; ranking function 0 afterwards.
+  (`mutable_converge_partial_*` are the earlier two-node single-key versions, kept.)
 * `mutable_converge_partial` — a fair round (a→b, then b→a) makes both hold the merge of a diverging
   transaction set / register; relies on the F-g repair (`skipHeldSameTypeOnly`). Hypothesis that keeps it `_partial`:
   the diverging key is the only new key of each advertisement (`OnlyNew`); see the note at the theorem.
@@ -445,6 +449,200 @@ theorem mutable_converge_partial_reg (w : World) (a b : Nat) (na nb : NodeSt) (k
     · rintro ((h | h) | h) <;> simp [h]
     · rintro (h | h) <;> simp [h])
 
+/-! ## (4) mutable records converge: any number of nodes, whole advertisements, rounds with timeouts
+
+Built in `Proofs/ReplicationRounds.lean`:
+* `adv_complete` — one advertisement at a `StaleQuiet` fetcher (nothing queued, every earlier in-flight entry past its
+  FETCH_TIMEOUT) is taken up completely: every new `(key, type)` of the list is scheduled from the advertiser at once
+  (C08 `progress_partial` for each queued entry, the fast path for a single one), nothing stays queued;
+* `exchange_join_tx` / `exchange_join_reg` — after all scheduled fetches are served and processed (`exchangeAll`) the
+  requester's version of *every* transaction / register key is the join (set union) of the two versions;
+* `exchange_then_tick_staleQuiet` — the quiet fetcher is re-established: what stays in flight (a fetch that merged to
+  nothing notifies nobody — the F-g side effect) has timed out after FETCH_TIMEOUT;
+* `void_exchange_quiets` — the F-g side effect itself: a timed-out fetch from the advertiser makes a multi-key
+  advertisement void (advertiser reported failed, nothing fetched) but leaves the fetcher empty, so that pair's next
+  exchange is complete: no two consecutive exchanges of one ordered pair are void;
+* `Abs.abs_converge` / `Abs.measure_zero` — the abstract semilattice system: a schedule with a completed exchange for
+  every ordered pair leaves every node with the join of all initial versions; the measure "nodes not at the join" is 0
+  afterwards, hence strictly smaller than before unless it was 0. -/
+
+open SafeNet.Replication.Abs in
+/-- version maps agree ⇒ the stored contents agree (transaction keys) -/
+theorem txKey_ext {k : Nat} {a b : NodeSt} (ha : TxKey k a) (hb : TxKey k b)
+    (h : verTx (a.store.get k) = verTx (b.store.get k)) : a.store.get k = b.store.get k := by
+  rcases ha with ha | ⟨la, ha, _, _⟩ <;> rcases hb with hb | ⟨lb, hb, _, _⟩ <;> rw [ha, hb] at h ⊢ <;>
+    simp [verTx] at h ⊢
+  exact h
+
+open SafeNet.Replication.Abs in
+theorem regKey_ext {alt : Bool} {k : Nat} {a b : NodeSt} (ha : RegKey alt k a) (hb : RegKey alt k b)
+    (h : verReg alt (a.store.get k) = verReg alt (b.store.get k)) : a.store.get k = b.store.get k := by
+  rcases ha with ha | ⟨la, ha, _⟩ <;> rcases hb with hb | ⟨lb, hb, _⟩ <;> rw [ha, hb] at h ⊢ <;>
+    simp [verReg] at h ⊢
+  exact h
+
+open SafeNet.Replication.Abs in
+/-- **Transaction sets converge — `n` nodes, whole advertisements, any order.**
+`nodes` are `n` neighbours whose fetchers are `StaleQuiet`; at key `k` each holds nothing or a transaction set.
+`xs` is any schedule of exchanges among them in which (`Valid`, the FairRound hypotheses, checked at the state each
+exchange meets) every advertisement is heard and taken up (legal choice witness, fewer than MAX_PARALLEL_FETCH records and
+stale entries, keys within the range, no timed-out fetch from that advertiser still registered), every scheduled fetch is
+served and processed, and FETCH_TIMEOUT passes at the requester afterwards; and which (`Covers`) contains such an exchange
+for every ordered pair — one fair round. Then every node holds the same content under `k`, its members are exactly the
+transactions held anywhere at the start, every fetcher is `StaleQuiet` again, and the ranking function (nodes not yet at
+the join) is 0 — strictly below its starting value unless that was 0. Bound: one fair round; two when exchanges voided
+by the F-g side effect are counted (`void_exchange_quiets`). -/
+theorem mutable_converge_txs (w : World) (n k : Nat) (nodes : Nat → NodeSt) (xs : List Xch) (hk : k % 3 = 1)
+    (hq : ∀ i, StaleQuiet (nodes i).fetcher) (hkey : ∀ i, TxKey k (nodes i)) (hv : Valid w nodes xs)
+    (hin : ∀ x ∈ xs, x.src < n ∧ x.dst < n) (hcov : Covers n (xs.map (fun x => (x.src, x.dst)))) :
+    let fin := runXs w nodes xs
+    (∀ x y, x < n → y < n → (fin x).store.get k = (fin y).store.get k) ∧
+    (∀ x m, x < n → (memV m (verTx ((fin x).store.get k)) ↔ ∃ y, y < n ∧ memV m (verTx ((nodes y).store.get k)))) ∧
+    (∀ i, StaleQuiet (fin i).fetcher) ∧
+    (∀ x0, x0 < n → measure n (fun i => verTx ((fin i).store.get k)) (verTx ((fin x0).store.get k)) = 0) := by
+  intro fin
+  obtain ⟨r1, r2, r3⟩ := runXs_refines w k verTx (TxKey k) (fun nd d h => h)
+    (fun src dst ns nd c1 cs hq ok hs hd => exchange_join_tx w src dst ns nd c1 cs k hk hq ok hs hd) xs nodes hq hkey hv
+  have hc : ∀ i, CanonV ((fun j => verTx ((nodes j).store.get k)) i) := by
+    intro i l hl
+    rcases hkey i with h | ⟨l', h, hcl, _⟩
+    · simp [h, verTx] at hl
+    · simp only [h, verTx, Option.some.injEq] at hl; rw [← hl]; exact hcl
+  have hin' : ∀ p ∈ xs.map (fun x => (x.src, x.dst)), p.1 < n ∧ p.2 < n := by
+    intro p hp
+    obtain ⟨x, hx, rfl⟩ := List.mem_map.1 hp
+    exact hin x hx
+  obtain ⟨a1, _, a3⟩ := abs_converge n _ _ hc hin' hcov
+  refine ⟨?_, ?_, r3, ?_⟩
+  · intro x y hx hy
+    exact txKey_ext (r2 x) (r2 y) (by rw [r1 x, r1 y]; exact a3 x y hx hy)
+  · intro x m hx
+    rw [r1 x]; exact a1 x m hx
+  · intro x0 hx0
+    have := (measure_zero n _ _ hc hin' hcov x0 hx0).1
+    have hf : (fun i => verTx ((fin i).store.get k)) =
+        runX (fun j => verTx ((nodes j).store.get k)) (xs.map (fun x => (x.src, x.dst))) := by
+      funext i; exact r1 i
+    rw [hf, r1 x0]; exact this
+
+open SafeNet.Replication.Abs in
+/-- **Registers converge — `n` nodes, whole advertisements, any order** (same statement for the versions of one register
+with base `alt`; depends on the F-g repair through `adv_complete`). -/
+theorem mutable_converge_reg (w : World) (n k : Nat) (alt : Bool) (nodes : Nat → NodeSt) (xs : List Xch) (hk : k % 3 = 2)
+    (hq : ∀ i, StaleQuiet (nodes i).fetcher) (hkey : ∀ i, RegKey alt k (nodes i)) (hv : Valid w nodes xs)
+    (hin : ∀ x ∈ xs, x.src < n ∧ x.dst < n) (hcov : Covers n (xs.map (fun x => (x.src, x.dst)))) :
+    let fin := runXs w nodes xs
+    (∀ x y, x < n → y < n → (fin x).store.get k = (fin y).store.get k) ∧
+    (∀ x m, x < n → (memV m (verReg alt ((fin x).store.get k)) ↔
+      ∃ y, y < n ∧ memV m (verReg alt ((nodes y).store.get k)))) ∧
+    (∀ i, StaleQuiet (fin i).fetcher) ∧
+    (∀ x0, x0 < n → measure n (fun i => verReg alt ((fin i).store.get k)) (verReg alt ((fin x0).store.get k)) = 0) := by
+  intro fin
+  obtain ⟨r1, r2, r3⟩ := runXs_refines w k (verReg alt) (RegKey alt k) (fun nd d h => h)
+    (fun src dst ns nd c1 cs hq ok hs hd => exchange_join_reg w src dst ns nd c1 cs alt k hk hq ok hs hd) xs nodes hq hkey hv
+  have hc : ∀ i, CanonV ((fun j => verReg alt ((nodes j).store.get k)) i) := by
+    intro i l hl
+    rcases hkey i with h | ⟨l', h, hcl⟩
+    · simp [h, verReg] at hl
+    · simp only [h, verReg, if_true, Option.some.injEq] at hl; rw [← hl]; exact hcl
+  have hin' : ∀ p ∈ xs.map (fun x => (x.src, x.dst)), p.1 < n ∧ p.2 < n := by
+    intro p hp
+    obtain ⟨x, hx, rfl⟩ := List.mem_map.1 hp
+    exact hin x hx
+  obtain ⟨a1, _, a3⟩ := abs_converge n _ _ hc hin' hcov
+  refine ⟨?_, ?_, r3, ?_⟩
+  · intro x y hx hy
+    exact regKey_ext (r2 x) (r2 y) (by rw [r1 x, r1 y]; exact a3 x y hx hy)
+  · intro x m hx
+    rw [r1 x]; exact a1 x m hx
+  · intro x0 hx0
+    have := (measure_zero n _ _ hc hin' hcov x0 hx0).1
+    have hf : (fun i => verReg alt ((fin i).store.get k)) =
+        runX (fun j => verReg alt ((nodes j).store.get k)) (xs.map (fun x => (x.src, x.dst))) := by
+      funext i; exact r1 i
+    rw [hf, r1 x0]; exact this
+
+/-- three mutually close nodes -/
+def meshWorld3 : World :=
+  { n := 3, rt := fun i => if i = 0 then [1, 2] else if i = 1 then [0, 2] else [1, 0], pdist := fun _ _ => 0, kdist := fun _ _ => 0 }
+
+/-- **Non-vacuity, 3 nodes × 2 keys, through the system-level transitions** (the history was produced by three real nodes
+in the harness; message ids and choice witnesses are theirs): every node starts with its own version of register 2 and
+transaction set 4; one round — each node's periodic replication, every Replicate delivered (both keys new: the multi-key
+path), every fetch served and processed — leaves all three with the unions, nothing on the wire, nothing queued. -/
+example :
+    let s := run meshWorld3 (init 3)
+      [.seed 0 2 (.reg false [0]) [],
+     .seed 0 4 (.txs [0]) [],
+     .seed 1 2 (.reg false [1]) [],
+     .seed 1 4 (.txs [1]) [],
+     .seed 2 2 (.reg false [2]) [],
+     .seed 2 4 (.txs [2]) [],
+     .interval 0,
+     .deliver 1 [⟨4, tyOf (.txs [0]), 0, 0⟩, ⟨2, tyOf (.reg false [0]), 0, 0⟩],
+     .deliver 2 [⟨4, tyOf (.txs [0]), 0, 0⟩, ⟨2, tyOf (.reg false [0]), 0, 0⟩],
+     .deliver 3 [],
+     .deliver 4 [],
+     .deliver 5 [],
+     .deliver 6 [],
+     .deliver 7 [],
+     .deliver 8 [],
+     .deliver 9 [],
+     .deliver 10 [],
+     .interval 1,
+     .deliver 11 [⟨4, tyOf (.txs [0, 1]), 1, 0⟩, ⟨2, tyOf (.reg false [0, 1]), 1, 0⟩],
+     .deliver 12 [⟨4, tyOf (.txs [0, 1]), 1, 0⟩, ⟨2, tyOf (.reg false [0, 1]), 1, 0⟩],
+     .deliver 13 [],
+     .deliver 14 [],
+     .deliver 15 [],
+     .deliver 16 [],
+     .deliver 17 [],
+     .deliver 18 [],
+     .deliver 19 [],
+     .deliver 20 [],
+     .interval 2,
+     .deliver 21 [⟨4, tyOf (.txs [0, 1, 2]), 2, 0⟩, ⟨2, tyOf (.reg false [0, 1, 2]), 2, 0⟩],
+     .deliver 22 [⟨4, tyOf (.txs [0, 1, 2]), 2, 0⟩, ⟨2, tyOf (.reg false [0, 1, 2]), 2, 0⟩],
+     .deliver 23 [],
+     .deliver 24 [],
+     .deliver 25 [],
+     .deliver 26 [],
+     .deliver 27 [],
+     .deliver 28 [],
+     .deliver 29 [],
+     .deliver 30 []]
+    (∀ i, i < 3 → (s.node i).store.get 2 = some (.reg false [0, 1, 2]) ∧ (s.node i).store.get 4 = some (.txs [0, 1, 2]) ∧
+      (s.node i).fetcher.tbf = []) ∧ s.wire = [] := by
+  set_option maxRecDepth 100000 in decide
+
+/-- non-vacuity of `mutable_converge_reg`: a concrete two-exchange schedule satisfies every FairRound hypothesis -/
+def exNodes : Nat → NodeSt := fun i => if i = 0 then naEx else nbEx
+def exSched : List Xch :=
+  [⟨0, 1, [⟨2, tyOf (.reg false [0, 1]), 0, 0⟩], [], 20⟩,
+   ⟨1, 0, [⟨2, tyOf (.reg false [0, 1, 2]), 1, 0⟩], [], 20⟩]
+
+theorem exValid : Valid padWorld exNodes exSched := by
+  refine ⟨⟨by decide, by decide, by decide, by decide, by decide, ?_, by decide⟩, by decide,
+          ⟨by decide, by decide, by decide, by decide, by decide, ?_, by decide⟩, by decide, trivial⟩
+  · intro r hr
+    have : (exNodes 1).fetcher.range = none := by decide
+    rw [this] at hr; cases hr
+  · intro r hr
+    have : (stepX padWorld exNodes ⟨0, 1, [⟨2, tyOf (.reg false [0, 1]), 0, 0⟩], [], 20⟩ 0).fetcher.range = none := by decide
+    rw [this] at hr; cases hr
+
+example : (∀ i, StaleQuiet (exNodes i).fetcher) ∧ (∀ i, RegKey false 2 (exNodes i)) ∧
+    Covers 2 (exSched.map (fun x => (x.src, x.dst))) ∧
+    (runXs padWorld exNodes exSched 0).store.get 2 = some (.reg false [0, 1, 2]) := by
+  refine ⟨?_, ?_, ?_, by decide⟩
+  · intro i; unfold exNodes; split <;> exact ⟨rfl, rfl, fun e he => by cases he⟩
+  · intro i; unfold exNodes; split
+    · exact Or.inr ⟨[0, 1], rfl, by simp [Canon]⟩
+    · exact Or.inr ⟨[1, 2], rfl, by simp [Canon]⟩
+  · intro y x hy hx hne
+    have : (y = 0 ∧ x = 1) ∨ (y = 1 ∧ x = 0) := by omega
+    rcases this with ⟨rfl, rfl⟩ | ⟨rfl, rfl⟩ <;> decide
+
 /-! ## (3) as an invariant of every run: whatever the delivery order, duplication and loss -/
 
 /-- every queued or in-flight entry of a fetcher names a holder satisfying `P` -/
@@ -777,5 +975,15 @@ example :
 #print axioms SafeNet.Props.C09.replication_targets_spec
 #print axioms SafeNet.Props.C09.boundary_peer_is_target
 #print axioms SafeNet.Props.C09.every_due_candidate_served
+#print axioms SafeNet.Props.C09.mutable_converge_txs
+#print axioms SafeNet.Props.C09.mutable_converge_reg
+#print axioms SafeNet.Replication.adv_complete
+#print axioms SafeNet.Replication.exchange_join_tx
+#print axioms SafeNet.Replication.exchange_join_reg
+#print axioms SafeNet.Replication.exchange_then_tick_staleQuiet
+#print axioms SafeNet.Replication.void_exchange_quiets
+#print axioms SafeNet.Replication.Abs.abs_converge
+#print axioms SafeNet.Replication.Abs.measure_zero
+#print axioms SafeNet.Props.C09.exValid
 
 end SafeNet.Props.C09
